@@ -1,18 +1,22 @@
-"""Which properties are claimed, at what level (source of MANIFEST.json)."""
+"""Which properties are claimed, at what level (source of MANIFEST.json).
+Each harness/props/cXX.py defines MANIFEST = {'text':..., 'note':..., 'technique':...}."""
+import importlib
+import pkgutil
+from pathlib import Path
 
 STD_NOTE = ('Trusted: Coq 8.16.1 kernel (vm_compute used, no native_compute), Flocq, the standard-library axioms '
             'reported by Print Assumptions (listed in the evidence file), the hand-written Gallina model and the '
             'correspondence harness that ties it to /repo by differential execution on every run.')
 
-CHECKS = {
-    'C05': {
-        'text': 'Coq proof that the model of RealFloat/Float arithmetic (+,-,*,**,neg,pos,abs,compare,split,normalize,int) '
-                'denotes the real operations for all encodings (unbounded); tied to /repo by running every operation on all '
-                'pairs of small encodings and random wide values on both fpy2 and the model.',
-        'note': STD_NOTE,
-        'technique': 'machine-checked proof in Coq (Flocq reals) + model/implementation correspondence by vm_compute',
-    },
-}
+CHECKS = {}
+for f in sorted((Path(__file__).parent / 'props').glob('c[0-9][0-9].py')):
+    mod = importlib.import_module(f'harness.props.{f.stem}')
+    m = getattr(mod, 'MANIFEST', None)
+    if m:
+        m.setdefault('note', STD_NOTE)
+        CHECKS[f.stem.upper()] = m
 
 _ALL = ['C%02d' % i for i in range(1, 21)]
-NOT_APPLICABLE = {p: 'check not built yet in this round (work in progress; see DESIGN.md section 10)' for p in _ALL if p not in CHECKS}
+NA_REASONS = {}
+NOT_APPLICABLE = {p: NA_REASONS.get(p, 'check not built yet in this round (work in progress; see DESIGN.md section 10)')
+                  for p in _ALL if p not in CHECKS}
